@@ -86,6 +86,14 @@ CLAIMED = {
               "40 Lean theorems; twin-server runs (MULTI..EXEC vs direct), interleaved connections predicted by the model, and a 5 s transfer workload with constant-sum readers over TCP."),
         note=TB + "Atomicity rests on the single-command-thread structure of Server::run (re-checked by the translator's coarse test, supported by the workload); WATCH's outcome is an input here (C08); sweeper/BGSAVE threads are not in this model.",
         ref="DESIGN.md section 5 C07"),
+    "C18": dict(
+        text=("Proof: frame rule - every command of the key-space machine except FLUSHALL, on any store, leaves every database j != i untouched and its reply depends only on database i; "
+              "isolation over arbitrary interleaved multi-connection histories (database j = fold of exactly the commands executed with selection j plus FLUSHALLs) on all four execution "
+              "paths (direct, EXEC, script, served blocking pop); SELECT laws for all arguments; selection per connection; FLUSHDB/FLUSHALL; and table theorems by decide on the dispatch table "
+              "regenerated from server.rs (every data command is handed the db; EVAL and EVALSHA get it; every dispatched name classified) - 32 Lean theorems; 3 connections over 16 "
+              "databases on equal key names through all paths over TCP, all 16 databases dumped and compared after each history (52k evaluations)."),
+        note=TB + "WATCH across SELECT is C08's; blocking-pop timeouts and multi-key waits are C13's; scripts use a restricted UTF-8 vocabulary (executor/handler parity is C12's).",
+        ref="DESIGN.md section 5 C18"),
     "C04": dict(
         text=("Proof: the skip-list invariant (level 0 strictly sorted by (score, member), every level a sublist of the one below, key index = level 0, length) for every "
               "operation sequence and every tower height, refinement of insert/remove to the sorted-list Spec, engine-level refinement for ZADD/ZINCRBY/ZREM/ZPOP histories, "
